@@ -149,10 +149,24 @@ def check_case(col, t, seed):
     if err > 1e-9:
         col.bump("poles_not_judged_coefficients_only_to_conditioning")
         return
-    Fn, Xi, Phi, Lam = plscf.pLSCF_poles(Ad, Bn, dt, "per", 2 * (nf - 1))
+    above_singular = False
+    try:
+        Fn, Xi, Phi, Lam = plscf.pLSCF_poles(Ad, Bn, dt, "per", 2 * (nf - 1))
+    except np.linalg.LinAlgError:
+        if not s["ordmax"] > n:
+            raise
+        # an over-parameterised order of an exactly rational spectrum has an exactly singular leading coefficient
+        # (infinite conditioning, outside the property); the order-n column is still judged, from the orders up to n
+        above_singular = True
+        col.bump("orders_above_true_order_singular_column_n_judged_alone")
+        Fn, Xi, Phi, Lam = plscf.pLSCF_poles(Ad[:n], Bn[:n], dt, "per", 2 * (nf - 1))
     Fn, Xi, Lam = np.asarray(Fn), np.asarray(Xi), np.asarray(Lam)
     # layout: slots per column
-    if Fn.shape[1] != s["ordmax"] or Fn.shape[0] < out["rows"]:
+    if above_singular:
+        if Fn.shape[1] != n or Fn.shape[0] < n * nch:
+            col.violation("plscf.pLSCF_poles/table_shape", f"pLSCF_poles: table shape {Fn.shape}, expected at least {(n * nch, n)}", rep)
+            return
+    elif Fn.shape[1] != s["ordmax"] or Fn.shape[0] < out["rows"]:
         col.violation("plscf.pLSCF_poles/table_shape", f"pLSCF_poles: table shape {Fn.shape}, expected at least {(out['rows'], s['ordmax'])}", rep)
         return
     c = out["column"]
@@ -186,7 +200,7 @@ def check_case(col, t, seed):
                       f"polys={s['polys']}", rep)
         return
     # through the class (periodogram convention: sign -1), spectrum injected
-    if sgn == -1 and nref >= 2:
+    if sgn == -1 and nref >= 2 and not above_singular:
         alg = Alg.pLSCF(name="p", ordmax=s["ordmax"], nxseg=2 * (nf - 1), method_SD="per",
                         hc=dict(conj=False, xi_max=1.1, mpc_lim=0.0, mpd_lim=10.0))
         alg._set_data(np.zeros((8, nch)), fs=1 / dt)
